@@ -42,10 +42,15 @@ def run(ctx, col, tier):
              "radius); frustum from this node to each child (near end = this node); child sphere "
              "and child frustum paired by position; every node's contribution is added exactly "
              "once and the node's sphere is handed to its parent", floor=7, shape=True)
+    col.rule("R-ACCUM", "per-node sums are accumulated for every child: no `acc[parents] += x` over an index array "
+             "(applied once per distinct parent: a node with several children keeps one child's term); zero "
+             "expected, positive example kept", floor=1)
     col.rule("R-FORM", c13_rule("R-FORM"), floor=8, exhaustive=True)
     col.rule("R-CELL", c13_rule("R-CELL"), floor=20, exhaustive=True)
     col.rule("R-ROLE", c13_rule("R-ROLE"), floor=8, shape=True)
     col.rule("R-GEO", "every term is a volume (degree 3)", floor=4, exhaustive=True)
+    col.rule("R-LINE", "geometry helpers behind the sphere/frustum form: line-sphere intersection, point projection, the "
+             "perpendicular helper direction (formal identities over dot products; sign-independent axis choice)", floor=6)
     col.rule("R-LADDER", "sphere.intersect(frustum) and child.intersect(frustum) resolve to the "
              "closed sphere/frustum form with the sphere as first operand", floor=3, shape=True)
     col.not_decided += ["the value of each primitive term (structure decided under the C13 rules "
@@ -54,12 +59,16 @@ def run(ctx, col, tier):
                         "touching non-adjacent parts)"]
     col.assumptions += ["premise of the property: each compartment is at least as long as both "
                         "end radii, hence sphere(parent) & sphere(child) lies inside their frustum"]
+    from ..rules import fancyadd
+    col.guard(fancyadd.check, ctx, col, "R-ACCUM", (MOD, "swcgeom.utils.volumetric_object"))
+    col.guard(anchored, ctx, col)
     col.guard(gate_and_terms, ctx, col)
     col.guard(entry, ctx, col)
     # primitives (shared with C13)
     col.guard(c13.forms, ctx, col)
     col.guard(c13.lens_cells, ctx, col)
     col.guard(c13.concentric, ctx, col)
+    col.guard(c13.helpers, ctx, col)
     col.guard(ladder, ctx, col)
 
 
@@ -244,3 +253,26 @@ def ladder(ctx, col):
     ok = "return self.volume" in src and any("self.volume = self._get_volume()" in s for s in src)
     col.check(ok, "R-LADDER", g.qualname, g.loc(), "get_volume() dispatches to the class's own closed form (cached per object)", "",
               "get_volume does not return the object's own _get_volume()", stmt="dispatch")
+
+
+def anchored(ctx, col):
+    repo = ctx.repo
+    d = repo.get_def(FN)
+    col.text_group("R-TERM", d.qualname, d, [
+        ("node sphere = (node position, node radius)", ["sphere = VolSphere(n.xyz(), n.r)"], "sphere"),
+        ("one frustum per child, from this node (position, radius) to the child's sphere (centre, radius), in child order",
+         ["cones = [VolFrustumCone(n.xyz(), n.r, c.center, c.radius) for c in children]"], "cones"),
+        ("the node's volume starts from its own sphere", ["v = sphere.get_volume()"], "start"),
+        ("each node's contribution is added to the total exactly once", ["volume += v"], "acc"),
+        ("the node's sphere is handed to the parent (it is the parent's child sphere)", ["return sphere"], "ret"),
+        ("the total starts at zero", ["volume = 0.0", "volume = 0"], "init"),
+        ("post-order over the whole tree (children before parents)", ["tree.traverse(leave=leave)"], "trav"),
+        ("the accumulated total is returned", ["return volume"], "total"),
+        ("level 10 is handled by the sampling routine only", ["if accuracy == 10: return _get_volume_frustum_cone_mc_only(tree)"], "gate10"),
+    ], fixed=("tree", "accuracy", "VolSphere", "VolFrustumCone", "_get_volume_frustum_cone_mc_only"))
+    g = repo.get_def(f"{MOD}.get_volume")
+    col.text_group("R-GATE", g.qualname, g, [
+        ("a named level is translated through the table", ["if isinstance(accuracy, str): accuracy = ACCURACY_LEVELS[accuracy]"], "lookup"),
+        ("admitted levels are 1..10", ["assert 0 < accuracy <= 10"], "domain"),
+        ("the level reaches the computation unchanged", ["return _get_volume_frustum_cone(tree, accuracy=accuracy)"], "forward"),
+    ], fixed=("tree", "accuracy", "ACCURACY_LEVELS", "_get_volume_frustum_cone"))
